@@ -427,6 +427,37 @@ def range_grid(rng, tier):
         out.append(("range-grid-%s" % name, s))
     return out
 
+def pe_jump_targets(rng, tier):
+    """relative jumps at the pc of a PE first frame whose displacement takes the target out of every range a signed or
+    an unsigned 32-bit computation can hold (the target decides whether the jump ends an epilog, S23; seeded change
+    C14-21 computed it in i32). Structurally valid image, hostile text; model-compared."""
+    out = []
+    disp32 = [0x7ffffff0, 0x7fffffff, 0x80000000, 0x80000001, 0xffffffff, 0xfffffffb, 0, 0x100, 0xffffe7fb, 0x7fffe7fb, 0xffffef00]
+    disp8 = [0x7f, 0x80, 0xfe, 0, 0x10, 0xf0]
+    for rep, fn_lo in enumerate((0x1000, 0x7ffff000)):
+        s = Script("x86", "may" if rep == 0 else "must")
+        text = bytearray([0x90] * 0x1000)
+        pcs = []
+        o = 0x10
+        for d in disp32:
+            text[o:o + 5] = bytes([0xE9]) + struct.pack("<I", d); pcs.append(o); o += 0x10
+        for d in disp8:
+            text[o:o + 2] = bytes([0xEB, d]); pcs.append(o); o += 0x10
+        # the same jumps at the very end of the function (the last bytes the analyser is given)
+        text[0xff0:0xff5] = bytes([0xE9]) + struct.pack("<I", 0x7ffffff0); pcs.append(0xff0)
+        text[0xffb:0x1000] = bytes([0xE9]) + struct.pack("<I", 0x80000000); pcs.append(0xffb)
+        uinfos = {0: dict(fpreg=None, fpoff=0, ops=[(4, ("alloc", 40))], chain=None, prolog=4)}
+        base = 0x7ff600000000
+        module_pe(s, "MJ", base, base + fn_lo + 0x2000, base, 0x140000000, [(fn_lo, fn_lo + 0x1000, 0)], uinfos, fn_lo, bytes(text),
+                  xdata_rva=0x8000 if fn_lo == 0x1000 else 0x7fff0000)
+        s.add("new U"); s.add("add U MJ"); s.add("newcache C")
+        s.mem("S", [(0x7000 + 8 * i, base + fn_lo + 0x20 + i) for i in range(64)])
+        for pc in pcs:
+            regs = s.regs_x86(base + fn_lo + pc, 0x7000 + 8 * rng.below(8), 0x7100)
+            s.add("unwind U C ip %s %s S" % (hx(base + fn_lo + pc), regs), tag="pe-jump:%s" % ("rel32" if text[pc] == 0xE9 else "rel8"))
+        out.append(("pe-jumps-%d" % rep, s))
+    return out
+
 def bytes_stream(rng, tier):
     out = []
     srcs = []
@@ -738,7 +769,7 @@ def generate(rng, tier):
     for arch in ("x86", "a64"):
         nm, s = suites.empty_fde_world(rng, arch, "may" if arch == "x86" else "must")
         out.append((nm, s))
-    return out + macho_structural(rng, tier) + macho_opcodes(rng, tier) + bytes_stream(rng, tier) + range_grid(rng, tier) + macho_ranges(rng, tier) + analysis_stream(rng, tier)
+    return out + macho_structural(rng, tier) + macho_opcodes(rng, tier) + bytes_stream(rng, tier) + pe_jump_targets(rng, tier) + range_grid(rng, tier) + macho_ranges(rng, tier) + analysis_stream(rng, tier)
 
 OWN = re.compile(r"panic own\b")
 def judge(script, impl):
